@@ -1,7 +1,7 @@
 use rten_base::num::IsNaN;
 use rten_shape_inference::UnaryOp;
 use rten_tensor::prelude::*;
-use rten_tensor::{Tensor, TensorView};
+use rten_tensor::{SliceItem, Tensor, TensorView};
 use smallvec::SmallVec;
 
 use crate::buffer_pool::{AutoReturn, BufferPool};
@@ -78,10 +78,31 @@ pub fn scatter_elements<
     }
     let axis = resolve_axis(data.ndim(), axis)?;
 
+    // `indices` may be smaller than `data` along any dimension. Positions along
+    // dimensions other than `axis` are the same in `indices` and `data`.
+    if (0..data.ndim()).any(|dim| dim != axis && indices.size(dim) > data.size(dim)) {
+        return Err(OpError::InvalidValue(
+            "`indices` must not be larger than `data` along non-axis dimensions",
+        ));
+    }
+
     let axis_size = data.size(axis);
     let mut output = data.to_tensor_in(pool);
 
-    for (output_lane, (update_lane, index_lane)) in output
+    // Restrict the output to the region addressed by `indices`, so that lanes
+    // of the output, updates and indices correspond.
+    let update_region: Vec<SliceItem> = (0..data.ndim())
+        .map(|dim| {
+            if dim == axis {
+                SliceItem::full_range()
+            } else {
+                SliceItem::Range((0..indices.size(dim)).into())
+            }
+        })
+        .collect();
+    let mut output_region = output.slice_mut(update_region.as_slice());
+
+    for (output_lane, (update_lane, index_lane)) in output_region
         .lanes_mut(axis)
         .zip(updates.lanes(axis).zip(indices.lanes(axis)))
     {
